@@ -50,7 +50,7 @@ R = {
  "C13-3": (True, "reqresp::RequestResponseProtocol::on_send_request (Verus): a refused request leaves all three registries unchanged (the seed parks the request before the dial and leaves it there on failure)"),
  "C13-4": (True, "reqresp::RequestResponseProtocol::on_send_request (Verus): Ok => the request is registered (pending_outbound / peer context / timeout) — first run undecided (the seed names SubstreamError::ConnectionClosed, missing from the reduced error type → variant added)"),
  "C14-3": (True, "kbucket::RoutingTable::on_connection_established (Verus): a stored peer is Connected afterwards for either endpoint direction"),
- "C14-4": (False, "UNDECIDED, not missed: the seed merges the two loops of KBucket::entry into one; the loop invariants of the unit are anchored by loop ordinal, so extraction reports `anchor lost: fn entry has 1 loops, contract names loop 1` and the check exits 2 (by design: a lost anchor is never turned into an alarm). The bounded Kani harness c14_bucket_entry_full_3sym (thorough tier) still decides the merged version"),
+ "C14-4": (True, "kbucket::c14_bucket_entry_full_3sym (Kani, bounded: full bucket, 3 symbolic entries; natively replayed): a stored peer is reported Occupied, never handed out as a replaceable slot. The Verus obligation KBucket::entry is UNDECIDED for this seed (the two loops its invariants are anchored to were merged — a lost anchor is never an alarm), which is why the bounded harness was moved from the thorough to the quick tier"),
  "C16-3": (True, "kad_dispatch::Kademlia::open_substream_or_dial (Verus): parked BEHIND everything already parked"),
  "C16-4": (True, "target_peers::c16_new_quorum_empty_targets (Kani): required acknowledgements >= 1 for an empty target set, every quorum"),
  "C18-3": (True, "peer_id::c18_from_multihash_agrees_with_reference and c18_from_multihash_contract (Kani, natively replayed)"),
